@@ -508,4 +508,326 @@ theorem lines_one_item_per_line (now : Nat) (dst d : Dir) (sch : Schema) (delim 
                 · simp only [Except.ok.injEq, Prod.mk.injEq] at hms
                   simp [← hms.2]
 
+/-! ## Round 2 — text input: exact cell content
+
+"a profile created from sentence lines has one item per line with identifiers, well-formedness marks
+and lengths as documented".  `plainVal i line f` (Lemmas.lean) is the documented value of field `f` for
+the `i`-th sentence line: `i-wf` = 0 iff the line starts with `*`, `i-input` = the line without that
+`*`, `i-id` = `i`, `i-length` = `wordCount` of the text; `recVal cm i f` the documented value for a
+delimited line with column map `cm`: the given column, else the line number for `i-id`, the word
+count of the `i-input` column for `i-length`. -/
+
+/-- the whitespace table the word count is stated over is Python's `str.isspace` set as generated
+from the live interpreter (a changed table breaks this proof) -/
+theorem pyWhitespace_pinned : pyWhitespace =
+    [9, 10, 11, 12, 13, 28, 29, 30, 31, 32, 133, 160, 5760, 8192, 8193, 8194, 8195, 8196, 8197, 8198,
+     8199, 8200, 8201, 8202, 8232, 8233, 8239, 8287, 12288] := rfl
+
+/-- `i-length` is the number of whitespace-separated words: a text made of `n` words (non-empty,
+without whitespace), separated by non-empty blanks, with optional leading and trailing blanks, has
+`wordCount = n` (every text decomposes this way; that remark is not part of the statement). -/
+theorem wordCount_words (lead : Text) (ps : List (Text × Text)) (hlead : IsBlank lead)
+    (hps : ∀ p ∈ ps, IsWord p.1 ∧ IsBlank p.2) (hsep : SepOk ps) :
+    wordCount (lead ++ assemble ps) = ps.length := by
+  unfold wordCount
+  cases lead with
+  | nil => exact L.wc_assemble ps hps hsep
+  | cons c cs =>
+    rw [L.wc_blank (c :: cs) _ false hlead (by simp)]
+    exact L.wc_assemble ps hps hsep
+
+/-- the `k`-th sentence line (counting from 0, first identifier `i`) gives the documented item -/
+theorem plainRecs_get (fields : List Field) : ∀ (lines : List Text) (i k : Nat) (hk : k < lines.length),
+    (plainRecs fields i lines)[k]? = some (fields.map (plainVal (i + k) lines[k]))
+  | [], _, _, hk => by simp at hk
+  | l :: ls, i, 0, _ => by simp [plainRecs]
+  | l :: ls, i, k + 1, hk => by
+    have := plainRecs_get fields ls (i + 1) k (by simpa using hk)
+    simp only [plainRecs, List.getElem?_cons_succ, List.getElem_cons_succ, this]
+    congr 3
+    omega
+
+theorem plainRecs_length (fields : List Field) : ∀ (lines : List Text) (i : Nat),
+    (plainRecs fields i lines).length = lines.length
+  | [], _ => rfl
+  | _ :: ls, i => by simp [plainRecs, plainRecs_length fields ls (i + 1)]
+
+/-- what is stored and read back for an item: per field the text of its value (`None` ⇒ default),
+an empty text reading back as `None` -/
+theorem item_cells (fields : List Field) (g : Field → LVal) :
+    readRow (encodeL fields (fields.map g)) = fields.map (fun f => readCell ((g f).text f)) := by
+  unfold encodeL readRow
+  induction fields with
+  | nil => rfl
+  | cons f fs ih =>
+    simp only [List.map_cons, List.zipWith_cons_cons, List.cons.injEq, true_and]
+    exact ih
+
+/-- sentence lines without delimiter never fail, and `item` holds exactly the documented items: one
+per line, in order, identifiers 1, 2, …, the `*` mark turned into `i-wf = 0` and removed, `i-length`
+the word count (for whichever of these fields the schema's `item` has; other fields get their
+default). -/
+theorem lines_plain_exact (now : Nat) (dst : Dir) (sch : Schema) (delim : Option Text)
+    (lines : List Text) (gzip : Bool) (fields : List Field)
+    (hd : Splitter.ofDelim delim = .plain) (hitem : ("item", fields) ∈ sch) (hnd : sch.names.Nodup)
+    (hf : fields ≠ []) :
+    ∃ d, mkprofLines now dst (some sch) delim lines gzip false = (d, none) ∧
+      (d.files "item").read =
+        some ((plainRecs fields 1 lines).map (fun r => readRow (encodeL fields r))) := by
+  have hlk : sch.lookup "item" = some fields := L.lookup_of_mem sch "item" fields hnd hitem
+  have hfe : fields.isEmpty = false := by cases fields <;> simp_all
+  unfold mkprofLines
+  cases sch with
+  | nil => simp at hitem
+  | cons s0 srest =>
+    simp only [hd, makeSplit, hlk, hfe, Bool.false_eq_true, if_false,
+      L.linesLoop_plain fields lines 1 [] (by simp)]
+    refine ⟨_, rfl, ?_⟩
+    simp only [cleanup, L.contains_names hitem, Bool.true_or, if_true, L.keeps_plain hitem,
+      L.cleanupOne_keep, Files.set, L.read_writeRel, List.map_map, Function.comp_def]
+
+/-- any text input (plain or delimited): if `mkprof` succeeds, `item` holds exactly the documented
+item of every data line after the header, in order, and — when `item` has an `i-id` field — the
+identifiers (given or line numbers) are pairwise different. -/
+theorem lines_success_exact (now : Nat) (dst d : Dir) (sch : Schema) (delim : Option Text)
+    (lines : List Text) (gzip : Bool) (fields : List Field) (hitem : ("item", fields) ∈ sch)
+    (hnd : sch.names.Nodup)
+    (hrun : mkprofLines now dst (some sch) delim lines gzip false = (d, none)) :
+    ∃ colnames rest, makeSplit (Splitter.ofDelim delim) lines = .ok (colnames, rest) ∧
+      (d.files "item").read = some ((delimRecs fields colnames (Splitter.ofDelim delim) 1 rest).map
+        (fun r => readRow (encodeL fields r))) ∧
+      (fields.any (fun f => f.name = "i-id") = true →
+        ∃ ids : List LVal, lineIds colnames (Splitter.ofDelim delim) 1 rest = ids.map some ∧ ids.Nodup) := by
+  have hlk : sch.lookup "item" = some fields := L.lookup_of_mem sch "item" fields hnd hitem
+  unfold mkprofLines at hrun
+  cases sch with
+  | nil => simp at hitem
+  | cons s0 srest =>
+    simp only at hrun
+    generalize Splitter.ofDelim delim = sp at hrun ⊢
+    cases hms : makeSplit sp lines with
+    | error e => simp [hms] at hrun
+    | ok cr =>
+      obtain ⟨colnames, rest⟩ := cr
+      simp only [hms, hlk] at hrun
+      split at hrun
+      · simp at hrun
+      · cases hll : linesLoop fields colnames sp 1 [] rest with
+        | error e => simp [hll] at hrun
+        | ok recs =>
+          simp only [hll, Prod.mk.injEq, and_true] at hrun
+          subst hrun
+          obtain ⟨h1, h2⟩ := L.linesLoop_inv fields colnames sp rest 1 [] recs hll
+          refine ⟨colnames, rest, rfl, ?_, ?_⟩
+          · simp only [cleanup, L.contains_names hitem, Bool.true_or, if_true, L.keeps_plain hitem,
+              L.cleanupOne_keep, Files.set, L.read_writeRel, h1, List.map_map, Function.comp_def]
+          · intro hw
+            obtain ⟨ids, e1, e2⟩ := h2 hw (by simp)
+            refine ⟨ids, e1, ?_⟩
+            have : ids.reverse.Nodup := by simpa using e2
+            exact (List.reverse_perm ids).nodup_iff.mp this
+
+/-- "duplicates rejected": a data line whose identifier was already used raises `CommandError`. -/
+theorem duplicate_id_rejected (fields : List Field) (colnames : List LVal) (sp : Splitter) (i : Nat)
+    (seen : List LVal) (line : Text) (cv : List LVal) (hsp : sp.split line = .ok cv)
+    (hl : cv.length = colnames.length) (hid : fields.any (fun f => f.name = "i-id") = true)
+    (hdup : idVal (colnames.zip cv) i ∈ seen) :
+    lineRecord fields colnames sp i seen line = .error .commandError := by
+  rw [L.lineRecord_eq fields colnames sp i seen line cv hsp hl]
+  simp [hid, hdup]
+
+/-- … so input in which two data lines carry the same identifier never produces a profile. -/
+theorem lines_duplicate_ids_fail (fields : List Field) (colnames : List LVal) (sp : Splitter)
+    (lines : List Text) (hid : fields.any (fun f => f.name = "i-id") = true) (ids : List LVal)
+    (hids : lineIds colnames sp 1 lines = ids.map some) (hdup : ¬ ids.Nodup)
+    (recs : List (List LVal)) : linesLoop fields colnames sp 1 [] lines ≠ .ok recs := by
+  intro h
+  obtain ⟨ids', e1, e2⟩ := (L.linesLoop_inv fields colnames sp lines 1 [] recs h).2 hid (by simp)
+  rw [hids] at e1
+  have : ids = ids' := by
+    have := congrArg (List.filterMap id) e1
+    simpa [List.filterMap_map] using this
+  subst this
+  apply hdup
+  have : ids.reverse.Nodup := by simpa using e2
+  exact (List.reverse_perm ids).nodup_iff.mp this
+
+/-- header handling: no delimiter (or an empty one) — no header line, columns `i-wf`, `i-input`. -/
+theorem header_plain (lines : List Text) :
+    Splitter.ofDelim none = .plain ∧ Splitter.ofDelim (some []) = .plain ∧
+    makeSplit .plain lines = .ok ([iWf, iInput], lines) := ⟨rfl, rfl, rfl⟩
+
+/-- delimiter `@`: the first line is the header, split and unescaped by `tsdb.split` (an empty
+header cell is `None`); a bad escape is a `TSDBError`. -/
+theorem header_at (h : Text) (rest : List Text) :
+    Splitter.ofDelim (some ['@']) = .tsdb ∧
+    makeSplit .tsdb (h :: rest) =
+      (match C08.splitRaw h with
+       | .ok cs => .ok (cs.map ofCell, rest)
+       | .error _ => .error .tsdbError) := by
+  refine ⟨rfl, ?_⟩
+  simp only [makeSplit, Splitter.split]
+  cases C08.splitRaw h <;> rfl
+
+/-- any other delimiter (also a multi-character one): the first line is the header, split with
+`str.split(delimiter)`. -/
+theorem header_sep (dl : Text) (hne : dl ≠ []) (hat : dl ≠ ['@']) (h : Text) (rest : List Text) :
+    Splitter.ofDelim (some dl) = .sep dl ∧
+    makeSplit (.sep dl) (h :: rest) = .ok ((splitSep dl h).map .str, rest) := by
+  refine ⟨?_, rfl⟩
+  cases dl with
+  | nil => exact absurd rfl hne
+  | cons c cs => simp [Splitter.ofDelim, hat]
+
+/-- delimited input without any line: `next(lineiter)` raises `StopIteration`. -/
+theorem header_missing (sp : Splitter) (h : sp ≠ .plain) : makeSplit sp [] = .error .stopIteration := by
+  cases sp with
+  | plain => exact absurd rfl h
+  | tsdb => rfl
+  | sep d => rfl
+
+/-- `str.split(sep)` on concrete lines (leftmost, non-overlapping, multi-character) -/
+theorem splitSep_examples :
+    splitSep ['|'] ['a', '|', '|', 'b'] = [['a'], [], ['b']] ∧
+    splitSep [':', ':'] ['a', ':', ':', ':', 'b'] = [['a'], [':', 'b']] ∧
+    splitSep ['a', 'a'] ['a', 'a', 'a'] = [[], ['a']] := by decide
+
+/-! ## Round 2 — an in-place refresh of a well-formed profile never fails -/
+
+/-- any `gzip`, any `skeleton`, with or without `schema=`: if every relation of the new schema has a
+field and — when no schema is given, so that rows are rewritten as they are — every stored row has
+the width of its relation, the refresh raises nothing.  (With `schema=` records are always rebuilt by
+column name, so even damaged rows cannot make it fail.) -/
+theorem refresh_total (now : Nat) (dst : Dir) (schema : Option Schema) (gzip skeleton : Bool)
+    (old : Schema) (hs : dst.schema = some old) (hnd : (schema.getD old).names.Nodup)
+    (hf : ∀ t f, (t, f) ∈ schema.getD old → f ≠ [])
+    (hw : schema = none → ∀ t f rows, (t, f) ∈ old → (dst.files t).read = some rows →
+            ∀ r ∈ rows, r.length = f.length) :
+    (mkprofRefresh now dst schema gzip skeleton).2 = none := by
+  unfold mkprofRefresh
+  simp only [hs]
+  have hloop : (writeLoop now gzip (refreshRecords old schema.isSome) dst.files (schema.getD old)).2 = none := by
+    apply L.writeLoop_total_local now gzip _ (L.refreshRecords_local old schema.isSome) _ _ hnd
+    intro t newF ht
+    refine ⟨hf t newF ht, ?_⟩
+    unfold refreshRecords
+    cases hold : old.lookup t with
+    | none => exact ⟨[], rfl, by simp⟩
+    | some oldF =>
+      refine ⟨_, rfl, ?_⟩
+      cases hsch : schema with
+      | some alt =>
+        intro r hr
+        simp only [Option.isSome_some, if_true, List.mem_map] at hr
+        obtain ⟨r0, _, rfl⟩ := hr
+        exact L.remake_length oldF newF r0
+      | none =>
+        intro r hr
+        simp only [Option.isSome_none, Bool.false_eq_true, if_false] at hr
+        subst hsch
+        simp only [Option.getD_none] at ht hnd
+        have e : oldF = newF := by
+          have := L.lookup_of_mem old t newF hnd ht
+          rw [hold] at this
+          exact Option.some.inj this
+        subst e
+        cases hr0 : (dst.files t).read with
+        | none => simp [hr0] at hr
+        | some rows =>
+          simp only [hr0, Option.getD_some] at hr
+          exact hw rfl t oldF rows ht hr0 r hr
+  generalize writeLoop now gzip (refreshRecords old schema.isSome) dst.files (schema.getD old) = w at hloop
+  obtain ⟨fs, e⟩ := w
+  simp only at hloop
+  subst hloop
+  rfl
+
+/-- "refreshing in place (optionally changing compression or schema) preserves all data", without a
+success hypothesis: for a well-formed profile the refresh succeeds and every relation reads back as
+its previous rows, one for one, in order, cells `defaulted` (matched by name under a new schema). -/
+theorem refresh_preserves_rows_total (now : Nat) (dst : Dir) (schema : Option Schema) (gzip : Bool)
+    (old : Schema) (hs : dst.schema = some old) (hnd : (schema.getD old).names.Nodup)
+    (hf : ∀ t f, (t, f) ∈ schema.getD old → f ≠ [])
+    (hw : schema = none → ∀ t f rows, (t, f) ∈ old → (dst.files t).read = some rows →
+            ∀ r ∈ rows, r.length = f.length) :
+    ∃ d, mkprofRefresh now dst schema gzip false = (d, none) ∧
+      ∀ t newF, (t, newF) ∈ schema.getD old →
+        (d.files t).read = some
+          (match old.lookup t with
+           | none => []
+           | some oldF => (((dst.files t).read).getD []).map (fun r =>
+               List.zipWith defaulted newF (if schema.isSome then remake oldF newF r else r))) := by
+  have ht := refresh_total now dst schema gzip false old hs hnd hf hw
+  generalize hr : mkprofRefresh now dst schema gzip false = res at ht
+  obtain ⟨d, e⟩ := res
+  simp only at ht
+  subst ht
+  exact ⟨d, rfl, fun t newF h => refresh_preserves_rows now dst d schema gzip old hs hnd hr t newF h⟩
+
+/-! ## Round 2 — the fallback: "use all rows if the filter and table cannot be joined"
+
+The join plan is now part of the model (`joinPlan`, mirroring `_plan_joins`/`_pivot_relations`); the
+harness only reports the relations `rs` that the filter's columns belong to.  `KeyPath ss t n`:
+`n` can be reached from `t` through relations that pairwise share a key name. -/
+
+/-- a join plan only ever exists along key links: it contains the table and the filter's relations,
+and every relation in it is reachable from the table through shared key names. -/
+theorem joinPlan_key_linked (ss : Schema) (t : Name) (rs J : List Name) (h : joinPlan ss t rs = some J) :
+    t ∈ J ∧ (∀ r ∈ rs, r ∈ J) ∧ ∀ n ∈ J, KeyPath ss t n :=
+  L.joinPlan_sound ss t rs J h
+
+/-- a relation from which some relation of the filter cannot be reached through key links is copied
+whole: the query raises `TSQLError` and all its rows are used. -/
+theorem fallback_copies_all (ss : Schema) (t : Name) (rs : List Name) (ks : List Nat) (late : Option Err)
+    (f : Name → Filt) (hf : f t = .rels rs ks late) (r : Name) (hr : r ∈ rs) (hno : ¬ KeyPath ss t r)
+    (rows : List Rec) :
+    selectRows (some (fun n => planSel ss n (f n))) t rows = .ok rows := by
+  have hj : joinPlan ss t rs = none := by
+    cases h : joinPlan ss t rs with
+    | none => rfl
+    | some J =>
+      obtain ⟨_, h2, h3⟩ := L.joinPlan_sound ss t rs J h
+      exact absurd (h3 r (h2 r hr)) hno
+  simp [selectRows, planSel, hf, hj]
+
+/-- in particular a relation without key fields is never filtered by a condition on another relation. -/
+theorem fallback_keyless (ss : Schema) (t : Name) (rs : List Name) (ks : List Nat) (late : Option Err)
+    (f : Name → Filt) (hf : f t = .rels rs ks late) (hk : keysOf ss t = [])
+    (r : Name) (hr : r ∈ rs) (hne : r ≠ t) (rows : List Rec) :
+    selectRows (some (fun n => planSel ss n (f n))) t rows = .ok rows :=
+  fallback_copies_all ss t rs ks late f hf r hr
+    (fun hp => hne (L.keyPath_keyless ss t r hk hp)) rows
+
+/-- an undefined column or a literal of the wrong type (`TSQLError` before planning): all rows too. -/
+theorem fallback_unresolved (ss : Schema) (t : Name) (f : Name → Filt) (hf : f t = .unresolved)
+    (rows : List Rec) : selectRows (some (fun n => planSel ss n (f n))) t rows = .ok rows := by
+  simp [selectRows, planSel, hf]
+
+/-- when a plan exists (and no joined relation lacks its file) the filter is applied: the rows are
+`_tsql_distinct` of the select output (exactly the satisfying rows under the F20 hypothesis,
+`filter_exact_partial`). -/
+theorem filter_applied (ss : Schema) (t : Name) (rs J : List Name) (ks : List Nat)
+    (f : Name → Filt) (hf : f t = .rels rs ks none) (hj : joinPlan ss t rs = some J) (rows : List Rec) :
+    selectRows (some (fun n => planSel ss n (f n))) t rows = .ok (tsqlDistinct (expand rows ks)) := by
+  simp [selectRows, planSel, hf, hj]
+
+/-- the key-sharing graph of the standard chain item – parse – result – tree -/
+def chainSchema : Schema :=
+  [("item", [⟨"i-id", ":integer", [":key"]⟩, ⟨"i-input", ":string", []⟩]),
+   ("parse", [⟨"parse-id", ":integer", [":key"]⟩, ⟨"i-id", ":integer", [":key"]⟩]),
+   ("result", [⟨"parse-id", ":integer", [":key"]⟩, ⟨"result-id", ":integer", [":key"]⟩]),
+   ("tree", [⟨"result-id", ":integer", [":key"]⟩, ⟨"t-label", ":string", []⟩]),
+   ("fold", [⟨"f-note", ":string", []⟩])]
+
+/-- reachability is necessary, not sufficient: one pivot relation is found (item – [parse] – result),
+but `_pivot_relations` adds a relation only if it connects two components at once, so item and tree
+(two links apart from each other's neighbours) are not joined and item is copied whole; a keyless
+relation is never joined. -/
+theorem joinPlan_examples :
+    joinPlan chainSchema "item" ["result"] = some ["item", "result", "parse"] ∧
+    joinPlan chainSchema "parse" ["tree"] = some ["parse", "tree", "result"] ∧
+    joinPlan chainSchema "item" ["tree"] = none ∧
+    joinPlan chainSchema "fold" ["item"] = none ∧
+    joinPlan chainSchema "fold" ["fold"] = some ["fold", "fold"] := by decide
+
 end Verif.C12
